@@ -225,6 +225,7 @@ package sourcebundle
 
 // Finder diagnostics are wrapped, not altered: every element is replaced by a wrapper around itself.
 //@ func (Diagnostics).inRemoteSourcePackage -> (r)
+//@   modifies diags
 //@   invariant loop1 C12.diags.wrap.inv: rangeindex < len(diags)
 //@       && (0 <= anyIndex && anyIndex <= rangeindex ==> dyntype(diags[anyIndex], "sourcebundle.diagnosticInSourcePackage")
 //@             && unbox(diags[anyIndex], "sourcebundle.diagnosticInSourcePackage").wrapped == old(diags[anyIndex]) && unbox(diags[anyIndex], "sourcebundle.diagnosticInSourcePackage").pkg == pkg)
